@@ -652,6 +652,9 @@ func buildOracle(c *pcase) string {
 			}{math.Float64bits(rv.Float()), size})
 		case "s", "bs", "rs", "rb":
 			strs[v.S] = true
+			if a, ok := v.Build().([4]byte); ok {
+				strs[string(a[:])] = true
+			}
 		case "i":
 			ints[v.I] = true
 			if v.I >= 0 && v.I <= 1000000 {
